@@ -314,6 +314,13 @@ func c15(c *an.Ctx) {
 				o.Fail(p.Pos(fn.Pos()), "%s recurses into fragment bodies without a visited-set guard on its selection-set argument: a fragment spread k times is walked k times, so chains of double spreads take exponential time", full)
 			}
 		}
+		// the exemption of the cycle detector rests on its fragment visitor being memoised: verified here
+		dc := c.NeedFunc(gq, "detectCyclesAndUnusedFragments")
+		if why := persistentMemo(dc); why != "" {
+			o.Fail(p.Pos(dc.Pos()), "detectCyclesAndUnusedFragments: %s: a fragment that is spread k times is walked k times, so a chain of fragments that each spread the next one twice takes exponential time (a 2 kB query stalls the parser, which runs under the connection lock for subscriptions)", why)
+		} else {
+			o.SitePos(p.Pos(dc.Pos()))
+		}
 	})
 
 	c.Check("R-WHO", "resolver panics are contained: SafeExecute*Resolver defer a recover that sets the error; Field.Resolve/BatchResolver are only invoked through them", 4, func(o *an.O) {
@@ -854,4 +861,92 @@ func cellOf(v ssa.Value) ssa.Value {
 		return x
 	}
 	return v
+}
+
+
+// persistentMemo: some closure of parent looks its *Fragment / *SelectionSet
+// parameter up in a map, returns success without descending when the entry
+// says so, records the parameter in the same map, and nothing ever deletes
+// from that map. Returns "" when such a memo exists, otherwise what is missing.
+func persistentMemo(parent *ssa.Function) string {
+	deleted := map[string]bool{}
+	for _, g := range an.WithAnons(parent) {
+		an.Instrs(g, func(i ssa.Instruction) {
+			if cc := an.CallOf(i); cc != nil {
+				if b, ok := cc.Value.(*ssa.Builtin); ok && b.Name() == "delete" {
+					deleted[an.Expr(cc.Args[0])] = true
+				}
+			}
+		})
+	}
+	why := "no visitor that skips a fragment it has already finished"
+	for _, g := range an.WithAnons(parent)[1:] {
+		for _, pa := range g.Params {
+			n := an.NamedOf(pa.Type())
+			if n == nil || (n.Obj().Name() != "Fragment" && n.Obj().Name() != "SelectionSet") {
+				continue
+			}
+			skips := map[string]bool{}
+			inserts := map[string]bool{}
+			an.Instrs(g, func(i ssa.Instruction) {
+				switch x := i.(type) {
+				case *ssa.Lookup:
+					if keyUses(x.Index, pa) && controlsNilReturn(x) {
+						skips[an.Expr(x.X)] = true
+					}
+				case *ssa.MapUpdate:
+					if keyUses(x.Key, pa) {
+						inserts[an.Expr(x.Map)] = true
+					}
+				}
+			})
+			for m := range skips {
+				if !inserts[m] {
+					continue
+				}
+				if deleted[m] {
+					why = "the visited set " + m + " has entries deleted again (it only tracks the current path)"
+					continue
+				}
+				return ""
+			}
+		}
+	}
+	return why
+}
+
+// controlsNilReturn: the lookup result (through extracts and comparisons)
+// decides an If one of whose successors returns immediately with a nil error.
+func controlsNilReturn(v ssa.Value) bool {
+	seen := map[ssa.Value]bool{}
+	var walk func(x ssa.Value) bool
+	walk = func(x ssa.Value) bool {
+		if seen[x] {
+			return false
+		}
+		seen[x] = true
+		for _, u := range *x.Referrers() {
+			switch y := u.(type) {
+			case *ssa.If:
+				for _, s := range y.Block().Succs {
+					if len(s.Instrs) == 0 || len(s.Instrs) > 3 {
+						continue
+					}
+					if ret, ok := s.Instrs[len(s.Instrs)-1].(*ssa.Return); ok && len(ret.Results) > 0 && isConstNil(ret.Results[len(ret.Results)-1]) {
+						return true
+					}
+				}
+			case *ssa.BinOp:
+				if walk(y) {
+					return true
+				}
+			case *ssa.Extract:
+				if walk(y) {
+					return true
+				}
+			}
+		}
+		return false
+	}
+	return walk(v)
 }
